@@ -347,14 +347,24 @@ REFINED = [
     "TryFrom<f32/f64> for FBig<_,2> / Repr<2>: exact value, precision = bit_len(mantissa) (from_ieee_exact)",
     "Repr::from_str_native on the plain form of the grammar ([sign] int [. frac] [@ scale], bases 2..36, either case): exactly the written "
     "value, precision = number of written digits (parse_literal_exact)",
+    "Repr::from_str_native (parse_unsigned, the scale split on the last marker, the hexadecimal branch, int/frac parts, error precedence) = "
+    "the documented grammar parseFloatSpec on EVERY byte string, bases 2..36: underscores, markers e E b B o O h H p P @, 0x/0X form of "
+    "base 2, NoDigits/InvalidDigit cases (parse_eq_grammar, grammar_digit_string); every accepted string denotes exactly the number its "
+    "digits spell with precision = digit count, x4 for hexadecimal digits (parse_ok_denotes)",
     "Display (fmt_round, no precision/width) then from_str: equal value, all bases/modes/operands (print_parse_round_trip)",
+    "Display with a precision option, no width (fmt_round: split_digits + round_fract, sign, integer digits, point, zero padding): the text "
+    "is a literal with exactly p fractional digits (print_precision_text) spelling |R|*B^-p where R is the integer the mode names for "
+    "x*B^p — floor/ceil/toward zero/away/nearest-even/nearest-away (print_precision_rounding, builder-float's ModeSpec/roundFract_spec'); "
+    "parsing the text returns exactly R*B^-p (print_precision_parse)",
+    "FBig::with_precision (builder-float's model fWithPrecision, driven against the real code by C10): new precision p; rounding contract "
+    "of C03 when digits are dropped, unchanged + Exact otherwise and for p = 0 (with_precision_contract, with_precision_unlimited)",
 ]
 FRONTIER = [
-    "Repr::from_str_native beyond the plain form: underscores, the base-specific markers (e b o h p), the hexadecimal form of base 2 and all "
-    "error cases are mirrored (Model/Text/Float.lean) and compared with the independent grammar parseFloatSpec on every case at run time; "
-    "model = grammar on all byte strings is not yet a theorem",
-    "Repr::fmt_round with a precision / width and fmt_round_scientific: mirrored incl. padding; Display with precision compared at run time "
-    "with displaySpec (roundInt of the rational value); not yet a theorem",
+    "str::parse::<isize>() of the scale (parseIsize) is shared by model and grammar: its own behaviour (sign, ASCII digits, 64-bit range) "
+    "is compared with the real code at run time only; the theorems hold for 64-bit isize",
+    "Repr::fmt_round width/fill/alignment/`+` padding and fmt_round_scientific (LowerExp/UpperExp): mirrored incl. padding and compared "
+    "with the real code on every run; the executable displaySpec (roundInt of the rational value) is compared at run time, no theorem "
+    "links it to ModeSpec",
     "Context::convert_base small-negative-exponent branch: builder-float's reprDiv model (C03) + the single-rounding path divRoundLong of fix bd48ef9; no theorem here",
     "Context::convert_base large-exponent branch (ln/exp at doubled precision): not mirrored; every case judged by exact rational arithmetic "
     "in the harness (digits, < 1 ulp, side, truthful flag, exact when representable) — the branch does NOT meet the contract (2 findings)",
@@ -365,24 +375,29 @@ FRONTIER = [
 THEOREMS = ["Dashu.Props.C08." + t for t in [
     "convert_base_pow_up_branch", "convert_base_pow_up_contract", "ilog_exact_sound", "convert_base_pow_down_branch",
     "convert_base_pow_down_contract", "convert_base_small_pos_contract", "exact_when_fits", "with_base_precision_documented",
-    "from_ieee_exact", "parse_literal_exact", "print_parse_round_trip"]]
+    "from_ieee_exact", "parse_literal_exact", "print_parse_round_trip", "parse_eq_grammar", "grammar_digit_string", "parse_ok_denotes",
+    "print_precision_text", "print_precision_rounding", "print_precision_parse", "with_precision_contract", "with_precision_unlimited"]]
 EXPLANATION = ("Partial. Proved for all bases, modes, precisions and operands: the three exact-evaluation branches of base conversion "
                "round the exact value (contract of C03: exact iff representable, else < 1 ulp on the mode's side, truthful flag); "
-               "the documented with_base precision; exactness of the f32/f64 import; the literal parser returns exactly the written "
-               "value with precision = digit count on the plain grammar form; Display then parse returns an equal number. The remaining "
-               "grammar forms (underscores, base markers, hex form, errors) and printing with precision/width are mirrored models compared "
-               "on every run with an independent grammar / rational rounding specification and with the real code; the ln/exp conversion branch is judged per case by exact arithmetic.")
+               "the documented with_base precision; exactness of the f32/f64 import; the literal parser equals the documented grammar on every byte "
+               "string (all markers, underscores, hexadecimal form, error cases) and every accepted string denotes exactly its digits with "
+               "precision = digit count; Display then parse returns an equal number; Display with a precision prints exactly that many "
+               "fractional digits of the value correctly rounded under the mode; with_precision meets the rounding contract. Width/fill "
+               "padding and the scientific formats are mirrored models compared on every run with the real code; the division branch of "
+               "base conversion reuses C03's model; the ln/exp conversion branch is judged per case by exact arithmetic.")
 ASSUMPTIONS = ["the f32 coarse test of round_fract decides like the exact comparison (C10)",
                "core::fmt delivers precision/width/flags as documented",
                "dashu-ratio arithmetic used by the harness judge of the ln/exp branch is exact (C04)"]
 LEVEL_TEXT = ("PARTIAL. Machine-checked Lean 4 theorems, for every base >= 2, mode, precision >= 1 and operand: base conversion through the "
               "power-related and small-exponent branches returns repr_round of the exact value and therefore satisfies the rounding "
               "contract (exact whenever representable, otherwise < 1 ulp on the side the mode requires, truthful Exact/Inexact flag); "
-              "the documented precision of with_base; exact import of f32/f64; the literal parser yields exactly the written value with "
-              "precision = number of written digits on [sign] int [. frac] [@ scale] in every base 2..36; Display (no precision) followed "
-              "by parsing returns an equal number. Not proved but executed against an independent specification and the real code on every "
-              "run: the other grammar forms (base-specific markers, hexadecimal form, underscores, error cases), Display/LowerExp/UpperExp "
-              "with precision/width/+, the division branch of base conversion. The large-exponent branch (ln/exp) is checked per case with exact "
+              "the documented precision of with_base; exact import of f32/f64; the literal parser equals the documented grammar on every byte "
+              "string in every base 2..36 (sign, underscores, markers e b o h p @, hexadecimal form of base 2, all error cases), an accepted "
+              "string denotes exactly the number its digits spell and the precision is the number of written digits; Display (no precision) "
+              "followed by parsing returns an equal number; Display with precision p prints exactly p fractional digits of the value rounded "
+              "as the mode specifies, and parsing that text returns exactly the rounded value; with_precision meets the rounding contract. "
+              "Not proved but executed against the real code on every run: width/fill/+ padding, LowerExp/UpperExp, the division branch of "
+              "base conversion. The large-exponent branch (ln/exp) is checked per case with exact "
               "rational arithmetic; it violates the contract on representable inputs and at small precisions (recorded findings).")
 LEVEL_NOTE = ("Trusted: Lean kernel; axioms propext/Classical.choice/Quot.sound; the correspondence harness, its exact-arithmetic judge "
               "(dashu-ratio) and the generators (sampling); builder-float's rounding model/theorems (C03, C10) and builder-nt's log2 "
